@@ -47,10 +47,10 @@ ApplyLayerBody(layer, p) ==
    LET RECURSIVE Go(_, _)
        Go(q, acc) == IF q > Len(layer) THEN acc ELSE Go(q + 1, ApplyBlock(layer[q], q - 1, acc))
    IN  Go(1, Body(p))
-LayerSound(tr, g) == /\ Len(tr.layer) = tr.n
+LayerSound(tr, g, tg) == /\ Len(tr.layer) = tr.n
                      /\ \A q \in 1..tr.n : tr.layer[q] \in InvertibleBlocks
                      /\ LET GG == Span(GraphGens(tr.n, g))
-                        IN  \A i \in 1..tr.n : ApplyLayerBody(tr.layer, tr.target[i]) \in GG
+                        IN  \A i \in 1..Len(tg) : ApplyLayerBody(tr.layer, tg[i]) \in GG
 
 (***************************************************************************)
 (* request event                                                           *)
@@ -102,6 +102,7 @@ PostApi(tr) ==      \* prep / readout / compress
        id  == IF ok THEN IdOfGroup(tr.n, Span(tg)) ELSE -1
        ent == IF id >= 0 /\ IsSupported(tr.n, tr.conn) THEN EntryOf(tr, id) ELSE <<-1, -1, -1>>
    IN
+   IF tr.raised = 1 THEN (IF ok /\ IsSupported(tr.n, tr.conn) THEN {"raised"} ELSE {}) ELSE
    (IF tr.kind \in {"prep", "compress"} /\ ~(ok /\ SignedSpan(tab) = SignedSpan(tg)) THEN {"state"} ELSE {})
    \cup (IF tr.kind = "readout" /\ ~(ok /\ AllDiagonal) THEN {"diag"} ELSE {})
    \cup (IF tr.kind = "readout" /\ ~(Span(ApplySeqTab(Inverse(tr.gates), ZTab(tr.n))) = Span(tg)) THEN {"inverse"} ELSE {})
@@ -111,7 +112,7 @@ PostApi(tr) ==      \* prep / readout / compress
    \cup (IF id >= 0 /\ MaxLvl(lvl) # ent[3] THEN {"depth"} ELSE {})
    \cup (IF tr.cls >= 0 /\ tr.cls # id THEN {"classify"} ELSE {})
    \cup (IF tr.graph >= 0 /\ id >= 0 /\ <<tr.graph, tr.cost, tr.depth>> # ent THEN {"lookup"} ELSE {})
-   \cup (IF Len(tr.layer) > 0 /\ tr.graph >= 0 /\ ~LayerSound(tr, tr.graph) THEN {"layer"} ELSE {})
+   \cup (IF Len(tr.layer) > 0 /\ tr.graph >= 0 /\ ~LayerSound(tr, tr.graph, tg) THEN {"layer"} ELSE {})
    \cup (IF tr.unchanged = 0 THEN {"args-mutated"} ELSE {})
 
 PostMub(tr) ==
